@@ -166,3 +166,61 @@ theorem point_on_round {y : A} {qy b : ℚ} (r : Rel x ep en q) (ry : Rel y ep e
   rw [this, h1, h2]; module
 
 end Conf
+
+/-! ### point pair → end points (`point_pair_to_end_points`), any ring -/
+namespace PointPair
+variable {A : Type} [Ring A] [Algebra ℚ A]
+
+/-- two null vectors `P`, `Q` with `PQ + QP = 2γ` (`γ = P·Q`) -/
+structure Null2 (P Q : A) (γ : ℚ) : Prop where
+  hP : P * P = 0
+  hQ : Q * Q = 0
+  hQP : Q * P = (2 * γ) • (1 : A) - P * Q
+
+variable {P Q : A} {γ : ℚ}
+
+theorem Null2.hP' (h : Null2 P Q γ) (z : A) : P * (P * z) = 0 := by rw [← mul_assoc, h.hP, zero_mul]
+theorem Null2.hQ' (h : Null2 P Q γ) (z : A) : Q * (Q * z) = 0 := by rw [← mul_assoc, h.hQ, zero_mul]
+theorem Null2.hQP' (h : Null2 P Q γ) (z : A) : Q * (P * z) = (2 * γ) • z - P * (Q * z) := by
+  rw [← mul_assoc, h.hQP, sub_mul, smul_mul_assoc, one_mul, mul_assoc]
+
+/-- the point pair `T = P ∧ Q = ½(PQ − QP)` -/
+def pp (P Q : A) : A := (1/2 : ℚ) • (P * Q - Q * P)
+
+macro "pp_nf" h:term : tactic => `(tactic| (
+  simp only [mul_add, add_mul, mul_sub, sub_mul, smul_mul_assoc, mul_smul_comm, smul_smul, mul_assoc, mul_one, one_mul,
+    neg_mul, mul_neg, neg_neg, smul_neg, neg_smul, smul_add, smul_sub, mul_zero, zero_mul, smul_zero, sub_zero, zero_sub, add_zero, zero_add,
+    ($h).hP, ($h).hQ, ($h).hQP, ($h).hP', ($h).hQ', ($h).hQP']))
+
+/-- `T P = γ P`, `T Q = −γ Q`, `T² = γ²`: so with `β = √|T²| = −γ` (points at positive distance: `γ < 0`) the idempotents
+    `½(1 ± T/β)` split the pair -/
+theorem pp_mul_P (h : Null2 P Q γ) : pp P Q * P = γ • P := by unfold pp; pp_nf h; module
+theorem pp_mul_Q (h : Null2 P Q γ) : pp P Q * Q = (-γ) • Q := by unfold pp; pp_nf h; module
+theorem pp_sq (h : Null2 P Q γ) : pp P Q * pp P Q = (γ * γ) • (1 : A) := by unfold pp; pp_nf h; module
+
+/-- `T | einf = ½(T einf − einf T) = Q − P` when both points are normalised (`P·einf = Q·einf = −1`) -/
+theorem pp_dot_einf (h : Null2 P Q γ) (e : A) (hPe : e * P = (-2 : ℚ) • (1 : A) - P * e) (hQe : e * Q = (-2 : ℚ) • (1 : A) - Q * e) :
+    (1/2 : ℚ) • (pp P Q * e - e * pp P Q) = Q - P := by
+  have hPe' (z : A) : e * (P * z) = (-2 : ℚ) • z - P * (e * z) := by
+    rw [← mul_assoc, hPe, sub_mul, smul_mul_assoc, one_mul, mul_assoc]
+  have hQe' (z : A) : e * (Q * z) = (-2 : ℚ) • z - Q * (e * z) := by
+    rw [← mul_assoc, hQe, sub_mul, smul_mul_assoc, one_mul, mul_assoc]
+  unfold pp
+  simp only [mul_add, add_mul, mul_sub, sub_mul, smul_mul_assoc, mul_smul_comm, smul_smul, mul_assoc, mul_one, one_mul,
+    smul_sub, hPe, hQe, hPe', hQe']
+  module
+
+/-- **the end points come back**: with `F = T/β`, `β = −γ ≠ 0`: `½(1 + F)(Q − P) = Q` and `−½(1 − F)(Q − P) = P` -/
+theorem end_points (h : Null2 P Q γ) (hγ : γ ≠ 0) :
+    ((1/2 : ℚ) • ((-1/γ) • pp P Q) + (1/2 : ℚ) • (1 : A)) * (Q - P) = Q
+    ∧ -(((-(1/2) : ℚ)) • ((-1/γ) • pp P Q) + (1/2 : ℚ) • (1 : A)) * (Q - P) = P := by
+  have hg : (-1 / γ) * γ = -1 := div_mul_cancel₀ (-1) hγ
+  have e2 : (1/2 : ℚ) * (-1/γ) * γ = -(1/2) := by rw [mul_assoc, hg]; norm_num
+  have e1 : (1/2 : ℚ) * (-1/γ) * -γ = 1/2 := by rw [mul_neg, e2]; norm_num
+  constructor
+  · simp only [add_mul, smul_mul_assoc, mul_sub, pp_mul_P h, pp_mul_Q h, one_mul, smul_smul]
+    rw [e1, e2]; module
+  · simp only [neg_mul, add_mul, smul_mul_assoc, mul_sub, pp_mul_P h, pp_mul_Q h, one_mul, smul_smul]
+    rw [e1, e2]; module
+
+end PointPair
